@@ -143,4 +143,12 @@ CHECKS["C08"] = {
     "level_note": SYS_NOTE + "; request targets are generated percent-encoded without dot segments; hop-by-hop and X-Forwarded-For additions are not differences",
 }
 
+CHECKS["C09"] = {
+    "subs": [{"pkg": "sys", "test": "TestC09", "quick": 160, "thorough": 6000, "shards_quick": 8, "shards_thorough": 12, "shrinktime": "10s", "timeout_quick": 900, "timeout_thorough": 7200}],
+    "engine": "SYS",
+    "level_text": "Generated (route, credential) pairs on real protected ports: the route table of each port is enumerated from the running gin engine, key configurations and token defects are drawn, validity is known by construction; every invalid pair must be answered 401 without reaching the upstream, the registry or a peer. Exploration only.",
+    "technique": "PBT (rapid) over enumerated routes x constructed tokens; oracle = validity by construction + observation points behind the routes",
+    "level_note": "valid tokens that are refused (over-rejection) are counted, not claimed either way; JWKS kid/alg pinning follows the measured behaviour of the key function library",
+}
+
 NOT_APPLICABLE = {}
